@@ -70,7 +70,7 @@ def account(c, results, pid, what):
     for r in results:
         if r["kind"] == "timeout":
             c.violation("hang", "a call did not return within the time limit (case %s)" % r["id"],
-                        {"kind": "deflate-hex", "id": r["id"]})
+                        {"kind": "deflate-hex", "id": r["id"], "hex": r.get("hex")})
             continue
         if r["kind"] != "case":
             continue
@@ -157,7 +157,7 @@ def replay_catalogue(c, wd, pid):
     """spec -> impl: the catalogue through the real parser and the public API."""
     cat = os.path.join(wd, "catalogue.ndjson")
     res = cat + ".res"
-    vh(["deflate-edge-replay", "--in", cat, "--out", res])
+    vh_or_isolate(["deflate-edge-replay", "--in", cat, "--out", res], "replay of the grammar catalogue")
     rs = list(read_ndjson(res))
     account(c, rs, pid, "grammar catalogue")
     len_obs = sorted({r["spec"]["reason"] for r in rs if r.get("leniency")})
